@@ -893,3 +893,458 @@ func conjuncts(e ast.Expr) []ast.Expr {
 	}
 	return []ast.Expr{e}
 }
+
+// c19ZeroDest: the parser builds the UUID by OR-ing nibbles into its bytes, so the bytes it ORs into are zero when
+// the parse starts: the destination is a variable declared without a value in the function that holds the loop, or
+// it is cleared (*u = UUID{}) on every path before the loop. A parser that ORs straight into the receiver of an
+// unmarshaler merges the new value with whatever the destination held (a second decode into the same UUID, or the
+// digits of a failed decode): print-then-parse no longer gives the UUID back.
+func c19ZeroDest(p *Program, r *Report) {
+	fi := r.NeedFunc("ParseUUID")
+	if fi == nil {
+		return
+	}
+	n := 0
+	for _, u := range p.unitsOf(fi) {
+		info := u.Pkg.TypesInfo
+		g := p.GraphOf(u)
+		ast.Inspect(u.Decl.Body, func(x ast.Node) bool {
+			as, ok := x.(*ast.AssignStmt)
+			if !ok || as.Tok != token.OR_ASSIGN || len(as.Lhs) != 1 {
+				return true
+			}
+			ix, ok := ast.Unparen(as.Lhs[0]).(*ast.IndexExpr)
+			if !ok || typeNameOf(info.TypeOf(ix.X)) != "UUID" {
+				return true
+			}
+			root := ast.Unparen(ix.X)
+			if st, isStar := root.(*ast.StarExpr); isStar {
+				root = ast.Unparen(st.X)
+			}
+			id, isId := root.(*ast.Ident)
+			if !isId {
+				return true
+			}
+			obj := info.Uses[id]
+			n++
+			// declared without a value in this function (not a parameter, receiver or named result)
+			fresh := false
+			ast.Inspect(u.Decl.Body, func(y ast.Node) bool {
+				if vs, ok := y.(*ast.ValueSpec); ok && len(vs.Values) == 0 {
+					for _, nm := range vs.Names {
+						if info.Defs[nm] == obj {
+							fresh = true
+						}
+					}
+				}
+				return true
+			})
+			if !fresh {
+				// cleared on every path before the store
+				sol := Solve(g, Lattice[bool]{
+					Init: true,
+					Join: func(a, b bool) bool { return a || b },
+					Eq:   func(a, b bool) bool { return a == b },
+					Step: func(dirty bool, st Step) bool {
+						if st.Kind != StNode {
+							return dirty
+						}
+						if a2, ok := st.Node.(*ast.AssignStmt); ok && a2.Tok == token.ASSIGN && len(a2.Lhs) == 1 && len(a2.Rhs) == 1 {
+							l := ast.Unparen(a2.Lhs[0])
+							if se, isStar := l.(*ast.StarExpr); isStar {
+								l = ast.Unparen(se.X)
+							}
+							if isIdentOf(info, l, obj) {
+								if cl, isCl := ast.Unparen(a2.Rhs[0]).(*ast.CompositeLit); isCl && len(cl.Elts) == 0 {
+									return false
+								}
+							}
+						}
+						return dirty
+					},
+				})
+				if node, found := g.cfgNodeOf(as); found {
+					if dirty, reach := sol.Before(node); reach && !dirty {
+						fresh = true
+					}
+				}
+			}
+			r.Check(fresh, as, u.Name+" ORs the digits into a zeroed UUID", "destination declared without a value here, or cleared before the loop",
+				"the nibbles are OR-ed into "+exprStr(ix.X)+", which is not a fresh zero value of this function: decoding into a UUID that already holds a value (or the digits of a failed parse) merges the two")
+			return true
+		})
+	}
+	if n == 0 {
+		// a parser that assigns whole bytes has no such obligation
+		r.OK(fi.Decl, "ParseUUID does not build the UUID by OR-ing into its bytes", "nothing to decide")
+	}
+}
+
+// c04FreshList: a decoded list or set owns fresh storage: the unmarshal functions give a slice destination its
+// length only by setting it to a new reflect.MakeSlice, never by re-slicing what the destination already holds
+// (reflect.Value.SetLen / Slice / Slice3 on it). Rows decoded one after the other into the same variable (Scan in a
+// loop, or the nested lists behind SliceMap's shallow row copies) would otherwise share a backing array, and a later
+// row would rewrite the cells of the earlier ones.
+func c04FreshList(p *Program, r *Report) {
+	n := 0
+	for _, fi := range p.SortedFuncs() {
+		if fi.Decl.Body == nil || fi.Pkg != p.Root {
+			continue
+		}
+		info := fi.Pkg.TypesInfo
+		makes := false
+		for _, c := range callsIn(fi.Decl.Body) {
+			if calleeName(info, c) == "reflect.MakeSlice" {
+				makes = true
+			}
+		}
+		if !makes {
+			continue
+		}
+		n++
+		bad := false
+		for _, c := range callsIn(fi.Decl.Body) {
+			nm := calleeName(info, c)
+			if strings.HasSuffix(nm, "Value).SetLen") || strings.HasSuffix(nm, "Value).SetCap") {
+				bad = true
+				r.Bad(c, fi.Name+" gives a decoded slice fresh storage", "the destination is re-sliced with "+exprStr(c)+" instead of being set to a new reflect.MakeSlice: values decoded earlier into the same destination (the previous row) share the backing array and are overwritten by this one")
+			}
+		}
+		if !bad {
+			r.OK(fi.Decl, fi.Name+" gives a decoded slice fresh storage", "reflect.MakeSlice only, no SetLen / SetCap")
+		}
+	}
+	if n == 0 {
+		r.Unresolved("no function builds a slice with reflect.MakeSlice")
+	}
+}
+
+// c10PeersHaveTokens: a row of system.peers without tokens (a joining or coordinator-only node) is not a valid peer:
+// the filter that decides which peers become hosts tests len(<host>.tokens). The placement strategies count the
+// racks and datacenters of every host they are given; a token-less host makes them expect a rack that owns nothing,
+// and every range gets fewer replicas than Cassandra places.
+func c10PeersHaveTokens(p *Program, r *Report) {
+	fi := r.NeedFunc("isValidPeer")
+	tf := p.Field("HostInfo", "tokens")
+	if fi == nil || tf == nil {
+		if tf == nil {
+			r.Unresolved("HostInfo.tokens not found")
+		}
+		return
+	}
+	tested := false
+	for _, u := range p.unitsOf(fi) {
+		info := u.Pkg.TypesInfo
+		ast.Inspect(u.Decl.Body, func(x ast.Node) bool {
+			be, ok := x.(*ast.BinaryExpr)
+			if !ok {
+				return true
+			}
+			for _, side := range []ast.Expr{be.X, be.Y} {
+				if c, isC := ast.Unparen(side).(*ast.CallExpr); isC && exprStr(c.Fun) == "len" && len(c.Args) == 1 {
+					arg := ast.Unparen(c.Args[0])
+					if fieldOf(info, arg) == tf {
+						tested = true
+					}
+					if cc, isCall := arg.(*ast.CallExpr); isCall && strings.HasSuffix(calleeName(info, cc), "HostInfo).Tokens") {
+						tested = true
+					}
+				}
+			}
+			return true
+		})
+	}
+	r.Check(tested, fi.Decl, "isValidPeer rejects a peer without tokens", "len(host.tokens) compared", "a peers row without tokens passes the filter and becomes a host of the policies: the placement strategies count its rack / datacenter although it owns no range, and replica lists come out short")
+}
+
+// c20DialerKeepsTLS: every defaultHostDialer the connection configuration builds carries the TLS configuration
+// derived from SslOpts (the tlsConfig field is set from the value setupTLSConfig returned, on every construction).
+// A dialer built without it for one configuration branch (a custom Dialer) connects in plaintext although the user
+// asked for verified TLS.
+func c20DialerKeepsTLS(p *Program, r *Report) {
+	tf := p.Field("defaultHostDialer", "tlsConfig")
+	if tf == nil {
+		r.Unresolved("defaultHostDialer.tlsConfig not found")
+		return
+	}
+	n := 0
+	for _, fi := range p.SortedFuncs() {
+		if fi.Decl.Body == nil || fi.Pkg != p.Root {
+			continue
+		}
+		info := fi.Pkg.TypesInfo
+		ast.Inspect(fi.Decl.Body, func(x ast.Node) bool {
+			cl, ok := x.(*ast.CompositeLit)
+			if !ok || typeNameOf(info.TypeOf(cl)) != "defaultHostDialer" {
+				return true
+			}
+			n++
+			set := false
+			for _, el := range cl.Elts {
+				if kv, isKV := el.(*ast.KeyValueExpr); isKV {
+					if k, isId := kv.Key.(*ast.Ident); isId && info.Uses[k] == tf && !isNil(info, kv.Value) {
+						set = true
+					}
+				}
+			}
+			if !set {
+				// the field assigned right after on the same variable
+				if as, isAs := p.Parent(p.Parent(cl)).(*ast.AssignStmt); isAs || true {
+					_ = as
+					ast.Inspect(fi.Decl.Body, func(y ast.Node) bool {
+						if a2, ok := y.(*ast.AssignStmt); ok {
+							for _, l := range a2.Lhs {
+								if fieldOf(info, l) == tf {
+									set = true
+								}
+							}
+						}
+						return true
+					})
+				}
+			}
+			r.Check(set, cl, fi.Name+" builds the host dialer with the TLS configuration", "tlsConfig set", "a defaultHostDialer is built without tlsConfig: on this configuration branch connections are made in plaintext although SslOpts asks for (verified) TLS")
+			return true
+		})
+	}
+	if n == 0 {
+		r.Unresolved("no defaultHostDialer is built")
+	}
+}
+
+// ctxOutlivesCancel: a context that a function derives with context.WithCancel / WithTimeout / WithDeadline and
+// cancels by a deferred call dies when the function returns; it is therefore not attached to an object that lives
+// on (a query via withContext / WithContext, or a struct field). The executor's per-execution context attached to
+// the query is inherited by the next-page copy of that query, and every page after the first fails with "context
+// canceled".
+func ctxOutlivesCancel(p *Program, r *Report) {
+	n := 0
+	for _, fi := range p.SortedFuncs() {
+		if fi.Decl.Body == nil || fi.Pkg != p.Root {
+			continue
+		}
+		info := fi.Pkg.TypesInfo
+		inspectNoLit(fi.Decl.Body, func(x ast.Node) bool {
+			as, ok := x.(*ast.AssignStmt)
+			if !ok || len(as.Lhs) != 2 || len(as.Rhs) != 1 {
+				return true
+			}
+			c, isCall := ast.Unparen(as.Rhs[0]).(*ast.CallExpr)
+			if !isCall || !strings.HasPrefix(calleeName(info, c), "context.With") {
+				return true
+			}
+			ctxId, ok1 := as.Lhs[0].(*ast.Ident)
+			canId, ok2 := as.Lhs[1].(*ast.Ident)
+			if !ok1 || !ok2 {
+				return true
+			}
+			ctxObj, canObj := info.ObjectOf(ctxId), info.ObjectOf(canId)
+			deferred := false
+			inspectNoLit(fi.Decl.Body, func(y ast.Node) bool {
+				if d, ok := y.(*ast.DeferStmt); ok && isIdentOf(info, d.Call.Fun, canObj) {
+					deferred = true
+				}
+				return true
+			})
+			if !deferred || ctxObj == nil {
+				return true
+			}
+			n++
+			bad := ""
+			ast.Inspect(fi.Decl.Body, func(y ast.Node) bool {
+				switch v := y.(type) {
+				case *ast.CallExpr:
+					nm := calleeName(info, v)
+					if strings.HasSuffix(nm, "ithContext") && !strings.HasPrefix(nm, "context.") {
+						for _, a := range v.Args {
+							if isIdentOf(info, a, ctxObj) {
+								bad = exprStr(v)
+							}
+						}
+					}
+				case *ast.AssignStmt:
+					for i, l := range v.Lhs {
+						if _, isSel := ast.Unparen(l).(*ast.SelectorExpr); isSel && i < len(v.Rhs) && isIdentOf(info, v.Rhs[i], ctxObj) && fieldOf(info, l) != nil {
+							bad = exprStr(l) + " = " + exprStr(v.Rhs[i])
+						}
+					}
+				}
+				return true
+			})
+			r.Check(bad == "", as, fi.Name+": the context cancelled on return is not attached to anything that lives on", "used for the calls of this function only",
+				"the context "+ctxObj.Name()+" is cancelled by a deferred call when "+fi.Name+" returns, but it is attached to a longer-lived object ("+bad+"): a query carrying it hands it to its next-page copy, and every page after the first ends with context canceled")
+			return true
+		})
+	}
+	if n == 0 {
+		r.OK(p.Root.Syntax[0], "no function cancels a derived context by a deferred call", "nothing to decide")
+	}
+}
+
+// c07ResultChanNotClosed: a waiting writer takes its result with a bare receive, and the zero writeResult means
+// "0 bytes, no error". The channels that carry write results are therefore never closed: every waiter is answered
+// by a send (on shutdown with io.EOF). A closed result channel reports a frame that never reached the wire as
+// written.
+func c07ResultChanNotClosed(p *Program, r *Report) {
+	n := 0
+	for _, fi := range p.SortedFuncs() {
+		if fi.Decl.Body == nil || fi.Pkg != p.Root {
+			continue
+		}
+		info := fi.Pkg.TypesInfo
+		carries := func(e ast.Expr) bool {
+			t := info.TypeOf(e)
+			if t == nil {
+				return false
+			}
+			ch, ok := t.Underlying().(*types.Chan)
+			return ok && typeNameOf(ch.Elem()) == "writeResult"
+		}
+		ast.Inspect(fi.Decl.Body, func(x ast.Node) bool {
+			switch v := x.(type) {
+			case *ast.SendStmt:
+				if carries(v.Chan) {
+					n++
+					r.OK(v, fi.Name+" answers a waiting writer with a send", exprStr(v.Value))
+				}
+			case *ast.CallExpr:
+				if exprStr(v.Fun) == "close" && len(v.Args) == 1 && carries(v.Args[0]) {
+					n++
+					r.Bad(v, fi.Name+" answers a waiting writer with a send", "the result channel "+exprStr(v.Args[0])+" is closed: the waiting writer receives the zero writeResult (0 bytes, nil error) and reports a frame that was never written as sent")
+				}
+			}
+			return true
+		})
+	}
+	if n == 0 {
+		r.Unresolved("no channel of writeResult is sent on")
+	}
+}
+
+// c13ErrorFormAgrees: an error frame reaches the retry policies in the form their type switches test for. For every
+// error type that the module's type switches and assertions name (pointer or value), parseErrorFrame returns that
+// form: a *RequestErrWriteTimeout case is not matched by a RequestErrWriteTimeout value, and the decision for a write
+// timeout silently becomes the default one.
+func c13ErrorFormAgrees(p *Program, r *Report) {
+	fi := r.NeedFunc("(*framer).parseErrorFrame")
+	if fi == nil {
+		return
+	}
+	// forms the consumers test for
+	wantPtr, wantVal := map[string]string{}, map[string]string{}
+	note := func(u *FuncInfo, te ast.Expr) {
+		t := u.Pkg.TypesInfo.TypeOf(te)
+		if t == nil {
+			return
+		}
+		if pt, ok := t.(*types.Pointer); ok {
+			if nm := typeNameOf(pt.Elem()); strings.HasPrefix(nm, "RequestErr") {
+				wantPtr[nm] = u.Name
+			}
+		} else if nm := typeNameOf(t); strings.HasPrefix(nm, "RequestErr") {
+			if _, isIface := t.Underlying().(*types.Interface); !isIface {
+				wantVal[nm] = u.Name
+			}
+		}
+	}
+	for _, u := range p.SortedFuncs() {
+		if u.Decl.Body == nil || u.Pkg != p.Root {
+			continue
+		}
+		ast.Inspect(u.Decl.Body, func(x ast.Node) bool {
+			switch v := x.(type) {
+			case *ast.TypeSwitchStmt:
+				for _, cl := range v.Body.List {
+					for _, te := range cl.(*ast.CaseClause).List {
+						note(u, te)
+					}
+				}
+			case *ast.TypeAssertExpr:
+				if v.Type != nil {
+					note(u, v.Type)
+				}
+			}
+			return true
+		})
+	}
+	n := 0
+	for _, u := range p.unitsOf(fi) {
+		info := u.Pkg.TypesInfo
+		inspectNoLit(u.Decl.Body, func(x ast.Node) bool {
+			rs, ok := x.(*ast.ReturnStmt)
+			if !ok || len(rs.Results) != 1 {
+				return true
+			}
+			t := info.TypeOf(rs.Results[0])
+			if t == nil {
+				return true
+			}
+			isPtr := false
+			if pt, ok := t.(*types.Pointer); ok {
+				isPtr, t = true, pt.Elem()
+			}
+			nm := typeNameOf(t)
+			if !strings.HasPrefix(nm, "RequestErr") {
+				return true
+			}
+			if _, isIface := t.Underlying().(*types.Interface); isIface {
+				return true
+			}
+			n++
+			okForm, why := true, "consumers name this form (or none)"
+			if isPtr && wantVal[nm] != "" && wantPtr[nm] == "" {
+				okForm, why = false, "a pointer, but "+wantVal[nm]+" tests for the value "+nm
+			}
+			if !isPtr && wantPtr[nm] != "" && wantVal[nm] == "" {
+				okForm, why = false, "a value, but "+wantPtr[nm]+" tests for *"+nm
+			}
+			r.Check(okForm, rs, u.Name+" returns "+nm+" in the form its consumers test for", why,
+				"the "+nm+" error frame is returned as "+why+": the type switch never matches it, and the retry decision (or error classification) for this error silently becomes the default one")
+			return true
+		})
+	}
+	if n == 0 {
+		r.Unresolved("parseErrorFrame returns no RequestErr* frame")
+	}
+}
+
+// c16HostEqualByAddress: the copy-on-write host list refuses a duplicate through HostInfo.Equal and removes an entry
+// by its connect address, leaving exactly one hole. The two agree only while Equal means "same connect address": every
+// non-trivial result of Equal is the comparison of the two connect addresses. (An Equal by host id lets a replacement
+// node enter under the address of the node it replaces; the removal then drops both and leaves a nil entry behind.)
+func c16HostEqualByAddress(p *Program, r *Report) {
+	fi := r.NeedFunc("(*HostInfo).Equal")
+	if fi == nil {
+		return
+	}
+	info := fi.Pkg.TypesInfo
+	n := 0
+	inspectNoLit(fi.Decl.Body, func(x ast.Node) bool {
+		rs, ok := x.(*ast.ReturnStmt)
+		if !ok || len(rs.Results) != 1 {
+			return true
+		}
+		n++
+		e := ast.Unparen(rs.Results[0])
+		if tv, isC := info.Types[e]; isC && tv.Value != nil {
+			r.OK(rs, "(*HostInfo).Equal decides by connect address", "constant result under a pointer-identity guard")
+			return true
+		}
+		byAddr := false
+		if c, isCall := e.(*ast.CallExpr); isCall && len(c.Args) == 1 {
+			if rx := recvExpr(c); rx != nil {
+				l, lok := ast.Unparen(rx).(*ast.CallExpr)
+				a, aok := ast.Unparen(c.Args[0]).(*ast.CallExpr)
+				if lok && aok && strings.HasSuffix(calleeName(info, l), "HostInfo).ConnectAddress") && strings.HasSuffix(calleeName(info, a), "HostInfo).ConnectAddress") {
+					byAddr = true
+				}
+			}
+		}
+		r.Check(byAddr, rs, "(*HostInfo).Equal decides by connect address", "ConnectAddress().Equal(ConnectAddress())",
+			"Equal returns "+exprStr(e)+": the host list's duplicate test (Equal) and its removal (by connect address) no longer agree, two entries can share an address and the removal of one leaves a nil entry in the list the policies iterate")
+		return true
+	})
+	if n == 0 {
+		r.Unresolved("(*HostInfo).Equal has no return")
+	}
+}
